@@ -11,6 +11,7 @@ const SETUP_ONLY: GameParams = GameParams { max_ops: 40, w_setup: 1, w_pos: 0, w
 const SMALL: GameParams = GameParams { max_ops: 240, w_setup: 0, w_pos: 1, w_small: 8, w_frozen: 0, hanging: false, w_motif: 0 };
 const FROZEN: GameParams = GameParams { max_ops: 240, w_setup: 0, w_pos: 0, w_small: 1, w_frozen: 6, hanging: false, w_motif: 0 };
 const MOTIF: GameParams = GameParams { max_ops: 24, w_setup: 0, w_pos: 0, w_small: 0, w_frozen: 0, hanging: false, w_motif: 1 };
+const SETUP_CYCLE: GameParams = GameParams { max_ops: 150, w_setup: 1, w_pos: 0, w_small: 0, w_frozen: 0, hanging: false, w_motif: 0 };
 const POS_ONLY: GameParams = GameParams { max_ops: 40, w_setup: 0, w_pos: 7, w_small: 3, w_frozen: 0, hanging: false, w_motif: 0 };
 
 const TREE: ExpandOpts = ExpandOpts { caps: [0, 10, 5], rate: 40, max_nodes: 6000 };
@@ -18,23 +19,27 @@ const TREE_CYCLE: ExpandOpts = ExpandOpts { caps: [0, 8, 4], rate: 48, max_nodes
 const TREE_LIGHT: ExpandOpts = ExpandOpts { caps: [0, 6, 3], rate: 24, max_nodes: 2500 };
 
 const fn wi(profile: Profile, expand: Option<ExpandOpts>) -> WalkOpts {
-    WalkOpts { profile, expand, follow_norep: false, inject: crate::drive::Inject::Auto, interfere: false }
+    WalkOpts { profile, expand, follow_norep: false, inject: crate::drive::Inject::Auto, interfere: false, play_on: false }
+}
+
+const fn wp(profile: Profile) -> WalkOpts {
+    WalkOpts { profile, expand: None, follow_norep: false, inject: crate::drive::Inject::No, interfere: false, play_on: true }
 }
 
 const fn wx(profile: Profile) -> WalkOpts {
-    WalkOpts { profile, expand: None, follow_norep: false, inject: crate::drive::Inject::No, interfere: true }
+    WalkOpts { profile, expand: None, follow_norep: false, inject: crate::drive::Inject::No, interfere: true, play_on: false }
 }
 
 const fn wr(profile: Profile, expand: Option<ExpandOpts>) -> WalkOpts {
-    WalkOpts { profile, expand, follow_norep: false, inject: crate::drive::Inject::Rebuild, interfere: false }
+    WalkOpts { profile, expand, follow_norep: false, inject: crate::drive::Inject::Rebuild, interfere: false, play_on: false }
 }
 
 const fn wn(profile: Profile) -> WalkOpts {
-    WalkOpts { profile, expand: None, follow_norep: true, inject: crate::drive::Inject::No, interfere: false }
+    WalkOpts { profile, expand: None, follow_norep: true, inject: crate::drive::Inject::No, interfere: false, play_on: false }
 }
 
 const fn w(profile: Profile, expand: Option<ExpandOpts>) -> WalkOpts {
-    WalkOpts { profile, expand, follow_norep: false, inject: crate::drive::Inject::No, interfere: false }
+    WalkOpts { profile, expand, follow_norep: false, inject: crate::drive::Inject::No, interfere: false, play_on: false }
 }
 
 macro_rules! leg {
@@ -102,10 +107,12 @@ fn legs_base(id: &str) -> Vec<Leg> {
             leg!("games_fight", MIX, w(Profile::Fight, Some(TREE_LIGHT)), 480, 14400, 600, mk),
             leg!("games_normal", MIX, w(Profile::Normal, None), 960, 28800, 1500, mk),
             leg!("false_protection_motif_tree", MOTIF, w(Profile::Fight, Some(TREE)), 300, 2400, 60, mk),
+            leg!("games_played_on_after_the_result", SMALL, wp(Profile::Normal), 600, 4800, 200, mk),
         ],
         "C03" => vec![
             leg!("games_normal", MIX_LONGSETUP, w(Profile::Normal, None), 10000, 300000, 1500, mk),
             leg!("games_cycle", SMALL, w(Profile::Cycle, None), 6000, 180000, 1500, mk),
+            leg!("games_played_on_after_the_result", SMALL, wp(Profile::Normal), 600, 4800, 200, mk),
         ],
         "C04" => vec![
             leg!("games_normal", MIX, w(Profile::Normal, None), 1600, 48000, 1500, mk),
@@ -127,23 +134,28 @@ fn legs_base(id: &str) -> Vec<Leg> {
             leg!("injected_history_fight", MIX, wi(Profile::Fight, None), 400, 12000, 600, mk),
             leg!("injected_history_near_immobile", FROZEN, wi(Profile::Cycle, None), 1500, 45000, 600, mk),
             leg!("interference_probe_near_immobile", FROZEN, wx(Profile::Cycle), 600, 4800, 300, mk),
+            leg!("setup_then_cycle", SETUP_CYCLE, w(Profile::Cycle, None), 400, 3200, 300, mk),
         ],
         "C08" => vec![
             leg!("games_normal", MIX_LONGSETUP, w(Profile::Normal, None), 3000, 90000, 1500, mk),
             leg!("games_fight", MIX, w(Profile::Fight, None), 3000, 90000, 1000, mk),
             leg!("small_cycle", SMALL, w(Profile::Cycle, None), 2000, 60000, 1000, mk),
             leg!("false_protection_motif_tree", MOTIF, w(Profile::Fight, Some(TREE)), 300, 2400, 60, mk),
+            leg!("games_played_on_after_the_result", SMALL, wp(Profile::Normal), 600, 4800, 200, mk),
+            leg!("setup_then_cycle", SETUP_CYCLE, w(Profile::Cycle, None), 200, 1600, 300, mk),
         ],
         "C09" => vec![leg!("setup_orders", SETUP_ONLY, w(Profile::Normal, None), 32000, 960000, 40, mk)],
         "C10" => vec![
             leg!("games_normal", MIX_LONGSETUP, w(Profile::Normal, None), 240, 7200, 1000, mk),
             leg!("games_fight_tree", MIX, w(Profile::Fight, Some(TREE_LIGHT)), 90, 2700, 400, mk),
             leg!("false_protection_motif_tree", MOTIF, w(Profile::Fight, Some(TREE)), 150, 1200, 60, mk),
+            leg!("games_played_on_after_the_result", SMALL, wp(Profile::Normal), 600, 4800, 200, mk),
         ],
         "C11" => vec![
             leg!("games_normal", MIX, w(Profile::Normal, None), 1800, 54000, 800, mk),
             leg!("games_fight", MIX, w(Profile::Fight, None), 1800, 54000, 600, mk),
             leg!("small_cycle", SMALL, w(Profile::Cycle, None), 1800, 54000, 800, mk),
+            leg!("setup_then_cycle", SETUP_CYCLE, w(Profile::Cycle, None), 400, 3200, 300, mk),
         ],
         "C12" => vec![
             leg!("tree_from_positions", POS_ONLY, w(Profile::Fight, Some(TREE)), 300, 9000, 60, mk),
@@ -165,6 +177,7 @@ fn legs_base(id: &str) -> Vec<Leg> {
             leg!("tree_from_positions", POS_ONLY, w(Profile::Fight, Some(TREE)), 75, 2250, 60, mk),
             leg!("games_normal", MIX, w(Profile::Normal, None), 300, 9000, 1000, mk),
             leg!("false_protection_motif_tree", MOTIF, w(Profile::Fight, Some(TREE)), 200, 1600, 60, mk),
+            leg!("games_played_on_after_the_result", SMALL, wp(Profile::Normal), 600, 4800, 200, mk),
         ],
         "C15" => vec![
             leg!("games_normal", MIX_LONGSETUP, w(Profile::Normal, None), 360, 10800, 800, mk),
@@ -178,6 +191,7 @@ fn legs_base(id: &str) -> Vec<Leg> {
             leg!("false_protection_motif_tree", MOTIF, w(Profile::Fight, Some(TREE)), 200, 1600, 60, mk),
             leg!("injected_history_near_immobile", FROZEN, wi(Profile::Cycle, None), 800, 6400, 600, mk),
             leg!("injected_history_fight", MIX, wi(Profile::Fight, None), 300, 2400, 600, mk),
+            leg!("games_played_on_after_the_result", SMALL, wp(Profile::Normal), 600, 4800, 200, mk),
         ],
         _ => vec![],
     }
